@@ -2,6 +2,7 @@
    Gallina program Brotli.Spec.brotli_prog, for every static dictionary
    [dict_byte]; brotli.Reader is tied to it by correspondence on every run
    and both are compared with libbrotli. *)
+From V Require Import Prefix.ReaderImpl Prefix.DecTable Prefix.DecTableSpec Brotli.BitReaderImpl Brotli.BitReaderSpec Brotli.BitReaderThms.
 From V Require Import Window.Dict Window.DictSpec Window.DictThms Window.DictBr Window.DictBrSpec Window.DictBrThms.
 From V Require Import Base.Prelude Base.Prog Base.ProgThms Brotli.Tables Brotli.Spec Brotli.Thms Brotli.Safe Brotli.Fuel.
 
@@ -61,3 +62,17 @@ Theorem brotli_window_refines_lz77 : forall size recycled ops st0,
                      bsp_run (wsp_init size) ops (map Ok obs) = Some s' /\ Inv st' s'.
 Proof. exact br_refines. Qed.
 Print Assumptions brotli_window_refines_lz77.
+
+(* brotli's OWN bit reader (bit_reader.go; model Brotli/BitReaderImpl.v over a modelled
+   bufio.Reader, run against the real bitReader on every run: WBRBITS) refines the abstract
+   LSB-first bit stream for every data, every underlying-reader script, every buffer size
+   >= 16 and every history of ReadBits / FeedBits (<= 57 bits) / TryReadBits / ReadPads / raw
+   Read / FlushOffset; after FlushOffset the source has been advanced over exactly the bytes
+   holding the bits read. Same on the ReadByte path (histories without explicit FeedBits). *)
+Theorem brotli_bit_reader_refines_bit_stream_bufio : bitreader_refines_bufio.
+Proof. exact bitreader_refines_bufio_holds. Qed.
+Print Assumptions brotli_bit_reader_refines_bit_stream_bufio.
+
+Theorem brotli_bit_reader_refines_bit_stream_bytereader : bitreader_refines_bytereader.
+Proof. exact bitreader_refines_bytereader_holds. Qed.
+Print Assumptions brotli_bit_reader_refines_bit_stream_bytereader.
